@@ -293,7 +293,25 @@ pub fn emit_recv(recvs: &[Recv], r: &Recv, out: &mut String) {
             out.push_str(&format!("impl ::vf_support::Dump for {name} {{ fn dump(&self) -> ::vf_support::Value {{ let mut o = ::vf_support::serde_json_map(); o.insert(String::from(\"{name}\"), ::vf_support::Dump::dump(&self.0)); ::vf_support::Value::Object(o) }} }}\n"));
         }
         Shape::Newtype(t) => {
-            out.push_str(&format!("pub struct {name}(pub {});\n", rust_ty(recvs, t)));
+            let nf = r.newtype_field();
+            let fattr = nf.as_ref().map(|f| field_attr(recvs, &r.id.to_string(), f, r.id)).unwrap_or_default();
+            out.push_str(&format!("pub struct {name}({fattr}pub {});\n", rust_ty(recvs, t)));
+            if let Some(f) = &nf {
+                field_helpers(recvs, &r.id.to_string(), f, r.id, out);
+            }
+            if let Ty::Sc(sc) = t {
+                // container-level transforms act on the only field (`cmap_stmt` names it `0`)
+                match r.post {
+                    Post::Map => out.push_str(&format!("fn cmap_{}(mut v: {name}) -> {name} {{ {} v }}\n", r.id, cmap_stmt(*sc, "0"))),
+                    Post::AndThen => out.push_str(&format!(
+                        "fn cand_{}(mut v: {name}) -> ::darling::Result<{name}> {{ if {} {{ return Err(::darling::Error::custom(\"rejected by container and_then\")); }} {} Ok(v) }}\n",
+                        r.id,
+                        cand_reject_cond(*sc, "0"),
+                        cmap_stmt(*sc, "0")
+                    )),
+                    Post::None => {}
+                }
+            }
             out.push_str(&format!("impl ::vf_support::Dump for {name} {{ fn dump(&self) -> ::vf_support::Value {{ let mut o = ::vf_support::serde_json_map(); o.insert(String::from(\"{name}\"), ::vf_support::Dump::dump(&self.0)); ::vf_support::Value::Object(o) }} }}\n"));
             out.push_str(&format!("impl ::core::default::Default for {name} {{ fn default() -> Self {{ {name}(::core::default::Default::default()) }} }}\n"));
             if r.from_none {
